@@ -30,12 +30,21 @@ def codec_roundtrips(ctx):
     for reason in (0, 1, 50, 100, 150, 252, 253, 255, 256, 65535, 65536, 2**32 - 1, 2**32, 2**32 + 5, 2**64 - 1):
         ctx.evaluations += 1
         w = pitkit.lp_wrap(inner, nack_reason=reason, extra=True)
-        got = enc.parse_lp_packet_v2(w)
-        if got.nack is None or got.nack.nack_reason != reason or bytes(got.fragment) != inner:
+        try:
+            got = enc.parse_lp_packet_v2(w)
+            bad = got.nack is None or got.nack.nack_reason != reason or bytes(got.fragment) != inner
+            seen = got.nack and got.nack.nack_reason
+        except Exception as ex:  # noqa
+            bad, seen = True, 'raised %s' % type(ex).__name__
+        if bad:
             ctx.violation('C10/parse_lp_packet_v2/nack-reason/%s' % ('big' if reason >= 2**32 else 'small'),
-                          'reason %d decoded as %r' % (reason, got.nack and got.nack.nack_reason), {'hex': w.hex()})
-        r2, f2 = enc.parse_lp_packet(w)
-        if r2 != reason or bytes(f2) != inner:
+                          'reason %d decoded as %r' % (reason, seen), {'hex': w.hex()})
+        try:
+            r2, f2 = enc.parse_lp_packet(w)
+            bad = r2 != reason or bytes(f2) != inner
+        except Exception as ex:  # noqa
+            bad, r2 = True, 'raised %s' % type(ex).__name__
+        if bad:
             ctx.violation('C10/parse_lp_packet/nack-reason', 'reason %d decoded as %r' % (reason, r2), {'hex': w.hex()})
         w2 = bytes(enc.make_network_nack(inner, reason))
         top = st.read_tlv(w2, containers={0x64: {0x0320: {}}})
